@@ -145,7 +145,7 @@ func zero(t types.Type) Value {
 			return FloatVal{0}
 		case u.Kind() == types.UnsafePointer:
 			return PtrVal{}
-		case u.Kind() == types.UntypedNil:
+		case u.Kind() == types.UntypedNil, u.Kind() == types.Invalid:
 			return nil
 		}
 		panic(pathEnd{"unsupported", fmt.Sprintf("zero: unsupported basic %v", u)})
